@@ -49,6 +49,7 @@ fn main() {
         "c14" => more::run_c14(&cfg),
         "c18" => more::run_c18(&cfg),
         "c19" => spell::run_c19(&cfg),
+        "parsetree" => spell::run_parsetree(&cfg),
         "list" => {
             for p in engine::patterns(&cfg.space, &cfg.tier, cfg.seed) {
                 println!("{}", p);
